@@ -34,6 +34,7 @@ func genFor(prop string, seed uint64, tier string) *Scenario {
 	case "C13":
 		return genC13(seed, tier)
 	case "C14":
+		c14Thorough = tier == "thorough"
 		return genC14(seed)
 	}
 	fmt.Fprintf(os.Stderr, "unknown property %q\n", prop)
